@@ -51,10 +51,20 @@ type HistOpts struct {
 func GenHistory(r *Rng, o HistOpts) *WriterSpec {
 	w := &WriterSpec{}
 	w.Shape = o.Shapes[r.Intn(len(o.Shapes))]
-	if w.Shape == "wide" && len(o.Shapes) > 1 && r.Chance(3, 4) {
-		// 70 columns cost several times an ordinary shape: a quarter of its uniform share
+	if w.Shape == "wide" && len(o.Shapes) > 1 && r.Chance(5, 6) {
+		// 70 columns cost several times an ordinary shape: a sixth of its uniform share
 		for w.Shape == "wide" {
 			w.Shape = o.Shapes[r.Intn(len(o.Shapes))]
+		}
+	}
+	if w.Shape == "wide" {
+		// ordinary, short histories only: the heavy classes with 70 columns cost seconds per case
+		o.LargePct, o.ManyPct, o.HugePct, o.BoundaryPct, o.BigPagePct = 0, 0, 0, 0, 0
+		if o.MaxOps > 12 {
+			o.MaxOps = 12
+		}
+		if o.MaxBatches > 2 {
+			o.MaxBatches = 2
 		}
 	}
 	w.Codec = Codecs[r.Pick(2, 2, 1)] // gzip costs ~0.5 ms per page (flate state allocation)
@@ -376,6 +386,9 @@ func ShrinkWriter(w *WriterSpec) []*WriterSpec {
 func genBoundary(r *Rng, o HistOpts) *WriterSpec {
 	w := &WriterSpec{Boundary: true, Large: true}
 	w.Shape = o.Shapes[r.Intn(len(o.Shapes))]
+	for w.Shape == "wide" && len(o.Shapes) > 1 {
+		w.Shape = o.Shapes[r.Intn(len(o.Shapes))]
+	}
 	w.Codec = Codecs[r.Pick(2, 2, 1)]
 	sizes := []int{127, 128, 129, 8191, 8192, 8193, 16383, 16384}
 	w.Page = sizes[r.Intn(len(sizes))]
